@@ -737,6 +737,9 @@ IDENTITIES = {
     "kitty": dict(xtversion=b"kitty(0.30.1)", kitty=b"OK"),
     "kitty-old": dict(xtversion=b"kitty(0.19.9)", kitty=b"OK"),
     "kitty-0.25": dict(xtversion=b"kitty(0.25.0)", kitty=b"OK"),
+    "kitty-0.25.1": dict(xtversion=b"kitty(0.25.1)", kitty=b"OK"),
+    "kitty-0.25.2": dict(xtversion=b"kitty(0.25.2)", kitty=b"OK"),
+    "kitty-0.26": dict(xtversion=b"kitty(0.26.0)", kitty=b"OK"),
     "konsole": dict(xtversion=b"Konsole 22.12.3", kitty=b"OK"),
     "konsole-old": dict(xtversion=b"Konsole 22.03.9", kitty=b"OK"),
     "wezterm": dict(xtversion=b"WezTerm 20230712-072601-f4abf8fd"),
